@@ -39,6 +39,8 @@ pub struct Plan {
     pub misuse: Misuse,
     pub use_next_job: bool,
     pub sched_seed: u64,
+    /// record a structured call trace (for the PyO3 boundary replay)
+    pub trace: bool,
 }
 impl Default for Plan {
     fn default() -> Self {
@@ -53,6 +55,7 @@ impl Default for Plan {
             misuse: Misuse::Off,
             use_next_job: false,
             sched_seed: 0,
+            trace: false,
         }
     }
 }
@@ -138,6 +141,10 @@ pub struct Report {
     pub ondemand_eph_chain: usize,
     pub detected_injections: BTreeSet<String>,
     pub cleanup_multi_down: usize,
+    /// structured call trace (JSON objects), only with Plan.trace
+    pub trace: Vec<String>,
+    /// most signals the engine handled inside one call, and that number relative to jobs + edges (x100)
+    pub max_signals: u64,
 }
 
 impl Report {
@@ -218,6 +225,13 @@ pub fn error_sig(g: &Graph, msg: &str) -> String {
     m
 }
 
+/// Logical step bound per engine call (C05 / C19): the number of signals one call handles is a small multiple of
+/// jobs + dependencies on the unchanged tree (measured maximum: see evidence `max_signals_per_call_x100_per_size`);
+/// the budget is far above it, so only a run-away (super-linear blow-up, endless loop) reaches it.
+pub fn signal_budget(g: &Graph) -> u64 {
+    2000 + 400 * (g.nodes.len() as u64 + g.edges.len() as u64)
+}
+
 fn fingerprint(ev: &Ev, g: &Graph) -> String {
     let s = ev.verif_snapshot();
     let mut q: Vec<Vec<String>> = vec![
@@ -282,9 +296,56 @@ impl<'a> Drv<'a> {
 
     /// run one guarded engine call; classify its result
     fn call(&mut self, name: String, f: impl FnOnce(&mut Ev) -> Result<(), PPGEvaluatorError>) -> Result<(), String> {
+        let disk_at_call: Vec<String> = if self.plan.trace { self.world.borrow().disk.keys().cloned().collect() } else { vec![] };
+        let r = self.call_inner(name.clone(), f);
+        if self.plan.trace {
+            let res = match &r {
+                Ok(()) => "ok",
+                Err(s) if s.starts_with("APIError") => "api",
+                Err(s) if s.starts_with("InternalError") => "internal",
+                Err(s) if s.starts_with("EphemeralChangedOutput") => "ephchanged",
+                Err(_) => "panic",
+            };
+            let mut it = name.splitn(3, ' ');
+            let op = it.next().unwrap_or("").to_string();
+            let job = it.next().unwrap_or("").to_string();
+            let rec = it.next().unwrap_or("").to_string();
+            let post = self.post_state_json();
+            self.rep.trace.push(format!(
+                "{{\"op\":{},\"job\":{},\"rec\":{},\"res\":{},\"disk\":{},{}}}",
+                crate::acc::jstr(&op),
+                crate::acc::jstr(&job),
+                crate::acc::jstr(&rec),
+                crate::acc::jstr(res),
+                crate::acc::jarr(&disk_at_call.iter().map(|x| crate::acc::jstr(x)).collect::<Vec<_>>()),
+                post
+            ));
+        }
+        r
+    }
+
+    /// what the PyO3 wrapper can observe as well: the query results after a call
+    fn post_state_json(&mut self) -> String {
+        let js = |v: std::collections::HashSet<String>| {
+            let mut v: Vec<String> = v.into_iter().collect();
+            v.sort();
+            crate::acc::jarr(&v.iter().map(|x| crate::acc::jstr(x)).collect::<Vec<_>>())
+        };
+        let ev = &mut self.ev;
+        match guarded(|| (ev.query_ready_to_run(), ev.query_jobs_running(), ev.query_ready_for_cleanup(), ev.query_upstream_failed(), ev.is_finished())) {
+            Ok((r, q, c, u, f)) => format!("\"ready\":{},\"running\":{},\"cleanup\":{},\"upf\":{},\"finished\":{}", js(r), js(q), js(c), js(u), f),
+            Err(_) => "\"ready\":null".to_string(),
+        }
+    }
+
+    fn call_inner(&mut self, name: String, f: impl FnOnce(&mut Ev) -> Result<(), PPGEvaluatorError>) -> Result<(), String> {
         self.rep.log.push(name.clone());
         let ev = &mut self.ev;
-        match guarded(|| f(ev)) {
+        pypipegraph2::verif::take_signal_count();
+        let res = guarded(|| f(ev));
+        let nsig = pypipegraph2::verif::take_signal_count();
+        self.rep.max_signals = self.rep.max_signals.max(nsig);
+        match res {
             Ok(Ok(())) => Ok(()),
             Ok(Err(e)) => {
                 let s = err_str(&e);
@@ -300,6 +361,15 @@ impl<'a> Drv<'a> {
                 }
                 self.rep.log.push(format!("  => {}", s));
                 Err(s)
+            }
+            Err(p) if p.contains("verif: signal budget exceeded") => {
+                // not a panic of the engine: the monitor's logical step bound stopped a run-away call
+                self.rep.errors.push(format!("{} -> {}", name, p));
+                let what = name.split(' ').next().unwrap_or("").to_string();
+                viol!(self, "C05", "signal-budget-exceeded", what, "{}: the engine handled more than {} signals inside this one call ({} jobs, {} dependencies) - it does not terminate in a bounded number of steps", name, signal_budget(self.g), self.g.nodes.len(), self.g.edges.len());
+                self.rep.fatal = true;
+                self.rep.log.push(format!("  => {}", p));
+                Err(p)
             }
             Err(p) => {
                 self.rep.errors.push(format!("{} -> {}", name, p));
@@ -409,6 +479,7 @@ impl<'a> Drv<'a> {
             }
             if self.rep.cleanup_acked.contains(j) {
                 viol!(self, "C13", "cleanup-offered-again", "", "cleanup of {} offered again after acknowledgement", j);
+                viol!(self, "C17", "cleanup-set-disagrees-with-events", "offered-after-ack", "{} reported ready for cleanup although the driver has acknowledged its cleanup", j);
             }
             if !self.rep.cleanup_offered.contains(j) {
                 let mut fin_steps = BTreeSet::new();
@@ -431,6 +502,7 @@ impl<'a> Drv<'a> {
         for j in prev_cleanup.iter() {
             if !cleanup.contains(j) && !self.rep.cleanup_acked.contains(j) {
                 viol!(self, "C13", "cleanup-offer-withdrawn", "", "cleanup offer of {} withdrawn without acknowledgement", j);
+                viol!(self, "C17", "cleanup-set-disagrees-with-events", "withdrawn", "{} was reported ready for cleanup, no acknowledgement was delivered, and it is no longer reported", j);
             }
         }
         // ---- C07: upstream failed only with a failed/upf direct upstream
@@ -565,6 +637,12 @@ impl<'a> Drv<'a> {
             let ev = &mut self.ev;
             tries.push(("startup", String::new(), guarded(|| ev.event_startup())));
         }
+        if self.plan.trace {
+            let disk: Vec<String> = self.world.borrow().disk.keys().cloned().collect();
+            let t: Vec<String> = tries.iter().map(|(w, j, _)| format!("[{},{}]", crate::acc::jstr(w), crate::acc::jstr(j))).collect();
+            let post = self.post_state_json();
+            self.rep.trace.push(format!("{{\"op\":\"misuse\",\"tries\":{},\"disk\":{},{}}}", crate::acc::jarr(&t), crate::acc::jarr(&disk.iter().map(|x| crate::acc::jstr(x)).collect::<Vec<_>>()), post));
+        }
         for (what, j, r) in tries {
             self.rep.misuse_calls += 1;
             let st = states.get(&j).cloned().unwrap_or_else(|| phase.to_string());
@@ -634,6 +712,10 @@ impl<'a> Drv<'a> {
         }
         inputs.sort();
         let jj = j.to_string();
+        if self.plan.trace {
+            let items: Vec<(String, String)> = seen.iter().map(|(u, r)| (u.clone(), r.as_ref().map(|x| crate::acc::jstr(x)).unwrap_or_else(|| "null".to_string()))).collect();
+            self.rep.trace.push(format!("{{\"op\":\"peek\",\"job\":{},\"seen\":{}}}", crate::acc::jstr(j), crate::acc::jobj(&items)));
+        }
         if self.call(format!("start {}", j), |ev| ev.event_now_running(&jj)).is_ok() {
             self.rep.started.push(jj.clone());
             self.rep.inputs_seen.insert(jj.clone(), seen);
@@ -695,7 +777,11 @@ impl<'a> Drv<'a> {
                 for (o, v) in &vals {
                     match n.kind {
                         JobKind::Output => w.disk.insert(o.clone(), v.clone()),
-                        JobKind::Ephemeral => w.temp.insert(o.clone(), v.clone()),
+                        JobKind::Ephemeral => {
+                            // same path as when the job was an Output job: the old file is overwritten and later cleaned up
+                            w.disk.remove(o);
+                            w.temp.insert(o.clone(), v.clone())
+                        }
                         JobKind::Always => w.mem.insert(o.clone(), v.clone()),
                     };
                 }
@@ -798,6 +884,7 @@ impl<'a> Drv<'a> {
             for j in pending {
                 if !cl.contains(&j) {
                     viol!(self, "C13", "cleanup-offer-withdrawn", "at-abort", "cleanup offer of {} withdrawn by the abort without acknowledgement", j);
+                    viol!(self, "C17", "cleanup-set-disagrees-with-events", "withdrawn-at-abort", "{} was reported ready for cleanup, no acknowledgement was delivered, and after the abort it is no longer reported", j);
                 }
             }
             for j in &cl {
@@ -868,6 +955,7 @@ pub fn evaluate(
     }
     pypipegraph2::verif::take_transitions();
     pypipegraph2::verif::take_max_depth();
+    pypipegraph2::verif::set_signal_budget(Some(signal_budget(g)));
 
     let mut d = Drv {
         g,
